@@ -240,3 +240,11 @@ impl QByteSize for Variables {
         self.iter().map(Variant::byte_size).sum()
     }
 }
+
+#[cfg(feature = "verif")]
+impl Variables {
+    /// Name/value pairs in insertion order.
+    pub fn verif_entries(&self) -> Vec<(&Name, &Variant)> {
+        self.map.entries().map(|(k, v)| (k, &v.value)).collect()
+    }
+}
